@@ -36,6 +36,8 @@ PYVC_MODULES = [
     "contracts.indexops",
     "contracts.truncation",
     "contracts.reshape",
+    "contracts.fuse_entry",
+    "contracts.fuselayout",
 ]
 
 BASE = [A_BUILTINS, A_INT, A_TERM, A_NUMPY, A_BOUNDED, A_USER]
@@ -71,13 +73,13 @@ _ALL = {
     "C05": _p(
         ["bounded.run_C05", "bounded.run_history"],
         "other",
-        "Proof core: accum_for_split returns exactly the consecutive prefix-sum intervals (unbounded length), from which insert-, concat- and unfuse layouts are derived by the same table. Bounded: element-relocation oracle, exact zeros, bit-for-bit round trips, insert==concat, cache on/off.",
+        "Proof core: accum_for_split returns exactly the consecutive prefix-sum intervals (unbounded length); calc_fuse_group_info axis bookkeeping and fused direction for every family of groups (ndim <= 4; 5 thorough); the per-block layout loop of calc_fuse_block_info (fused charge = signed sum relative to the first axis of the group, fused size = product, sub-sectors in group order, sub-sector tables, memo correctness) for nine (thorough: 35) rank / group instances with any number of blocks; fuse / _fuse_core hand the cached layout, the stored blocks and the backend functions to exactly one strategy and build the result from what comes back (frames, dtype of the zero blocks); the layout memo returns what the uncached computation returns for every cache content; index trees: conj / drop_charges at every nesting level, hash memos reset. The accumulation of sub-sectors into charge tables / extents and the block-moving strategies: bounded (element-relocation oracle, exact zeros, bit-for-bit round trips, insert==concat, cache on/off).",
         frames=['immutable', 'key_covers'],
     ),
     "C06": _p(
         ["bounded.run_C06", "bounded.run_history"],
         "other",
-        "Bounded tier decides (modes agree in rank, index structure incl. sub-index info and values; contraction of fused operands equals contraction); proof core shared with C05/C02 (layout tables, key algebra).",
+        "Proof core: the fused strategy aligns, exits early with the combined charge, fuses the contracted / free legs in the layout the partner uses and unfuses exactly the legs fused here; drop_misaligned_sectors keeps exactly the aligned sectors and used charges (rank 2, any number of blocks); layout memo and fuse entry points as in C05. Bounded tier decides values: modes agree in rank, index structure incl. sub-index info and values; contraction of fused operands equals contraction.",
         frames=['immutable', 'key_covers'],
     ),
     "C07": _p(
@@ -105,17 +107,17 @@ _ALL = {
     "C11": _p(
         ["bounded.run_C11"],
         "other",
-        "Bounded tier decides (reconstruction through the library's own contraction, orthonormality, triangularity, ordering, bond structure; tolerance 1e-9). LAPACK and floating point are outside deductive reach.",
+        "Proof core (structure, any number of blocks; Z2, Z4, U1): qr / svd -- one factor block per input block, bond table with one charge per input block and sizes from the factor shapes, opposite bond directions, charges, shapes, conservation; eigh -- eigenvector block per input block, eigenvalues keyed by the column charge, ValueError exactly for a non-identity charge; solve -- solution blocks exactly where a right-hand-side block exists, conjugated column index, charge c_b - c_a; fermionic wrappers synchronise before raw blocks are read and put the ket-bra sign on the inner leg of the fresh right factor. Numerical content (reconstruction, orthonormality, triangularity, ordering; tolerance 1e-9, single precision 1e-4): bounded tier; LAPACK and floating point are outside deductive reach.",
     ),
     "C12": _p(
         ["bounded.run_C12"],
         "exploration",
-        "No deductive content (LAPACK, floating point). Bounded: spectra / norms / solutions against dense numpy.",
+        "The numerical statement (spectra, norms, solutions equal the dense ones) has no deductive content (LAPACK, floating point): bounded exploration against dense numpy. The only obligations discharged are structural: which blocks eigh / solve produce, keyed how, with which index and charge (contracts/linalg_bonds.py).",
     ),
     "C13": _p(
         ["bounded.run_C13"],
         "other",
-        "Proof core: (1) positive cutoff -- the truncation threshold computed by svd_truncated (the real code up to the per-sector counts) keeps exactly the values permitted by the selected cutoff rule and the bond limit, for all six modes, any number of singular values (reals, numpy primitives as ghost folds); every kept value >= every discarded one; a larger cutoff never keeps more; the known findings F8 (cutoff above the total weight) and F11 (ties at the bond limit) are the only refuted obligations and their solver counterexamples replay natively. (2) no cutoff -- calc_sub_max_bonds returns a split with sum == max_bond and 0 <= part <= sector size. Slicing of the factors, absorption, error identity: bounded tier (kept-set oracle for six modes x cutoffs x bond limits x absorb options).",
+        "Proof core: (1) positive cutoff -- the truncation threshold computed by svd_truncated (the real code up to the per-sector counts) keeps exactly the values permitted by the selected cutoff rule and the bond limit, for all six modes, any number of singular values (reals, numpy primitives as ghost folds); every kept value >= every discarded one; a larger cutoff never keeps more; the known findings F8 (cutoff above the total weight) and F11 (ties at the bond limit) are the only refuted obligations and their solver counterexamples replay natively. (2) the rest of svd_truncated for any number of sectors: sectors without a surviving value are removed from U, s and VH together, kept blocks are the first columns / values / rows, both factors get the same new bond table whose sizes are the kept counts (shapes match: the factors stay valid), and absorb = left / right / both scales exactly the columns of U / rows of VH by the kept values (their square roots), anything else raises. (3) no cutoff -- calc_sub_max_bonds returns a split with sum == max_bond and 0 <= part <= sector size. Error identity, equality of the absorb variants as products, largest-first within a charge (LAPACK order): bounded tier (kept-set oracle for six modes x cutoffs x bond limits x absorb options).",
         extra=["fold lemmas LS_store / LS_scale / LS_floor assumed at the instances used (Lean: contracts/lean)"],
     ),
     "C14": _p(
@@ -127,7 +129,7 @@ _ALL = {
     "C15": _p(
         ["bounded.run_C15", "bounded.run_history"],
         "other",
-        "Proof core: default_tensordot_mode restores the previous mode on normal and exceptional exit; cache key coverage obligations. Bounded: cold/warm/evicting histories over near-identical arrays. The thread clause is outside this technique family: only a bounded stress run.",
+        "Proof core: default_tensordot_mode restores the previous mode on normal and exceptional exit; the fuse-layout memo returns, for EVERY cache content satisfying its invariant and every size limit, exactly what the uncached computation returns, keyed by index hash keys + stored sectors + symmetry + groups, and re-establishes the invariant (induction over every history of calls); hash keys cover every slot, memos are reset by every copy at every nesting level, the hash is a digest of the pickle. Bounded: cold/warm/evicting/bypassing histories over near-identical arrays. The thread clause is outside this technique family: only a bounded stress run.",
         extra=["schedules (threads) are NOT covered by any contract: bounded stress run only"],
         frames=['key_covers', 'immutable'],
     ),
